@@ -144,7 +144,7 @@ func run(c *core.Ctx) error {
 			defer wg.Done()
 			sem <- struct{}{}
 			defer func() { <-sem }()
-			timeout := 5 * time.Minute
+			timeout := 12 * time.Minute
 			if !c.Quick() {
 				timeout = 15 * time.Minute
 			}
@@ -248,8 +248,8 @@ func run(c *core.Ctx) error {
 	nSeq, lenSeq, nStress, G, perG := 24, 8, 8, 4, 3
 	nContend, nContendTLC := 1500, 4
 	if !c.Quick() {
-		nSeq, lenSeq, nStress, G, perG = 200, 10, 80, 4, 4
-		nContend, nContendTLC = 5000, 24
+		nSeq, lenSeq, nStress, G, perG = 100, 10, 40, 4, 4
+		nContend, nContendTLC = 5000, 12
 	}
 	var hs []*history
 	for i := 0; i < nSeq; i++ {
@@ -280,11 +280,8 @@ func run(c *core.Ctx) error {
 	}
 	c.Set("contention_rounds", nContend)
 	c.Logf("recorded %d sequential, %d concurrent and %d contention histories from the real context (%d violations so far)", nSeq, nStress, nContend, c.Violations())
-	// validate in chunks in parallel (each TLC run is single-threaded)
-	chunks := 2
-	if !c.Quick() {
-		chunks = 8
-	}
+	// validate in chunks of 12 histories, 4 TLC runs at a time (each is single-threaded)
+	chunks := (len(hs) + 11) / 12
 	type vout struct {
 		bad int
 		res *core.TLCResult
@@ -292,6 +289,7 @@ func run(c *core.Ctx) error {
 		hs  []*history
 	}
 	vouts := make([]vout, chunks)
+	vsem := make(chan struct{}, 4)
 	for k := 0; k < chunks; k++ {
 		for i, h := range hs {
 			if i%chunks == k {
@@ -301,6 +299,8 @@ func run(c *core.Ctx) error {
 		wg.Add(1)
 		go func(k int) {
 			defer wg.Done()
+			vsem <- struct{}{}
+			defer func() { <-vsem }()
 			vouts[k].bad, vouts[k].res, vouts[k].err = validate(c, vouts[k].hs, true)
 		}(k)
 	}
